@@ -145,7 +145,7 @@ theorem decide_diag_preferred (p : PivIn) (s : Scan) (inv : p.Inv s)
         rw [harg.2.2.1] at this
         exact this
       have hne' : p.mags.getD d 0 ≠ 0 := hne
-      simp only [hne', hthr, ne_eq, not_false_eq_true, decide_true, ge_iff_le, Bool.and_self, if_true]
+      simp only [hne', hthr, ne_eq, not_false_eq_true, decide_true, Bool.and_self, if_true]
       exact ⟨trivial, hrow⟩
 
 theorem decide_else_first_max (p : PivIn) (s : Scan) (inv : p.Inv s) (hu0 : 0 ≤ p.u)
@@ -311,5 +311,61 @@ example : (pivotSelect exPiv).info = 0 ∧ (pivotSelect exPiv).pivrow = 2 ∧ (p
 example : (pivotSelect { exPiv with u := 1 }).pivrow = 7 := by decide +kernel  -- threshold 1: the maximum wins
 example : (pivotSelect { exPiv with mags := #[9, 0, 0, 0] }).info = 3 := by decide +kernel  -- all candidates zero
 example : (pivotSelect { exPiv with rows := #[0] , mags := #[9] }).outOfRange = true := by decide +kernel  -- no candidate row
+
+end Slu
+
+namespace Slu
+
+/-- whichever rule fires, the chosen position is a candidate (given at least one candidate) -/
+theorem decide_ptr_cand (p : PivIn) (s : Scan) (inv : p.Inv s) (hne : p.nsupc < p.rows.size) :
+    p.cand (pivotDecide p s).pivptr := by
+  unfold pivotDecide
+  simp only
+  by_cases h0 : s.pivmax = 0
+  · rw [if_pos h0]; simp only; rw [inv.zero h0]; exact ⟨le_refl _, hne⟩
+  · rw [if_neg h0]
+    have harg := inv.arg h0
+    split
+    · rcases inv.old with ⟨o1, _⟩ | ⟨_, o2, o3, _⟩
+      · simp only [o1]; exact ⟨le_refl _, hne⟩
+      · exact (cand_range p _).2 ⟨o2, o3⟩
+    · simp only
+      split
+      · next d hd =>
+        split
+        · obtain ⟨d1, d2, _, _⟩ := inv.diagSome d hd
+          exact (cand_range p d).2 ⟨d1, d2⟩
+        · exact (cand_range p _).2 ⟨harg.1, harg.2.1⟩
+      · exact (cand_range p _).2 ⟨harg.1, harg.2.1⟩
+
+/-- a reported success means a nonzero pivot, for every threshold value -/
+theorem decide_pivot_nonzero (p : PivIn) (s : Scan) (inv : p.Inv s) (h : (pivotDecide p s).info = 0) :
+    p.mag (pivotDecide p s).pivptr ≠ 0 := by
+  unfold pivotDecide at h ⊢
+  simp only at h ⊢
+  by_cases h0 : s.pivmax = 0
+  · rw [if_pos h0] at h; simp at h
+  · rw [if_neg h0]
+    have harg := inv.arg h0
+    have hmaxne : p.mag s.pivptr ≠ 0 := by
+      show p.mags.getD s.pivptr 0 ≠ 0
+      rw [harg.2.2.1]; exact h0
+    split
+    · next hold =>
+      simp only [Bool.and_eq_true, decide_eq_true_eq] at hold
+      exact hold.2.1
+    · simp only
+      split
+      · next d hd =>
+        split
+        · next hdg => simp only [Bool.and_eq_true, decide_eq_true_eq] at hdg; exact hdg.1
+        · exact hmaxne
+      · exact hmaxne
+
+theorem pivot_ptr_cand (p : PivIn) (hne : p.nsupc < p.rows.size) : p.cand (pivotSelect p).pivptr :=
+  decide_ptr_cand p _ (scan_of p) hne
+
+theorem pivot_nonzero (p : PivIn) (h : (pivotSelect p).info = 0) : p.mag (pivotSelect p).pivptr ≠ 0 :=
+  decide_pivot_nonzero p _ (scan_of p) h
 
 end Slu
